@@ -109,6 +109,28 @@ func main() {
 			os.Exit(2)
 		}
 		writeResult(*out, res)
+	case "numminter":
+		res, err := minter.RunNumeric(*walks, *seed)
+		if err != nil {
+			fmt.Fprintln(os.Stderr, "numminter:", err)
+			os.Exit(2)
+		}
+		b, _ := json.MarshalIndent(res, "", " ")
+		if err := os.WriteFile(*out, b, 0o644); err != nil {
+			fmt.Fprintln(os.Stderr, err)
+			os.Exit(2)
+		}
+	case "numdist":
+		res, err := distributor.RunHuge(*walks, *seed)
+		if err != nil {
+			fmt.Fprintln(os.Stderr, "numdist:", err)
+			os.Exit(2)
+		}
+		b, _ := json.MarshalIndent(res, "", " ")
+		if err := os.WriteFile(*out, b, 0o644); err != nil {
+			fmt.Fprintln(os.Stderr, err)
+			os.Exit(2)
+		}
 	case "numvesting":
 		res, err := vesting.RunNumeric(*edges, *walks, *seed)
 		if err != nil {
